@@ -2,6 +2,7 @@ package vc
 
 import (
 	"fmt"
+	"strings"
 
 	"golang.org/x/tools/go/ssa"
 )
@@ -28,11 +29,24 @@ type inlFrame struct {
 
 const maxInlineDepth = 4
 
+// modulePrefix: host/org/repo of an import path ("" for standard library paths).
+func modulePrefix(path string) string {
+	parts := strings.Split(path, "/")
+	if len(parts) < 3 || !strings.Contains(parts[0], ".") {
+		return ""
+	}
+	return strings.Join(parts[:3], "/")
+}
+
 func (x *exec) canInline(st *pstate, callee *ssa.Function) bool {
 	if callee == nil || len(callee.Blocks) == 0 || len(callee.FreeVars) > 0 || callee == x.fn {
 		return false
 	}
 	if len(st.frames) >= maxInlineDepth {
+		return false
+	}
+	// only functions of the module under verification (never the standard library or dependencies)
+	if callee.Pkg == nil || x.fn.Pkg == nil || modulePrefix(callee.Pkg.Pkg.Path()) != modulePrefix(x.fn.Pkg.Pkg.Path()) {
 		return false
 	}
 	for _, f := range st.frames {
